@@ -482,10 +482,12 @@ def main():
     chk = H.Check("C38")
     chk.bounds = [
         "sessions: (new) EKO.create + build + 2 operator stores + xgrid/metadata update + close; (edit) EKO.edit of a 2-operator archive, one overwrite, one new "
-        "operator, metadata update, close; (solve) eko.runner.managed.solve of the example cards (1 target, nf=5: 2 evolution recipes + 1 matching)",
+        "operator, metadata update, close; (solve) eko.runner.managed.solve of the example cards with three evolution points in two flavour-number schemes "
+        "(4 evolution recipes + 1 matching, 3 joined operators: faults after the first stored operator are crash points like any other)",
         "crash index k1 symbolic over ALL numbered primitives of the session (mkdtemp, create/truncate, write, mkdir, unlink, tar open / add-member / close, extractall, "
         "rmtree, replace) plus user-code steps and computation steps (parts.evolve/match, operators.join); thorough tier: a second symbolic index k2 in the retried session",
         "a fault is an exception raised *before* the primitive takes effect (truncate and write of a file are separate steps; tar members are separate steps; "
+        "the finalisation of a tar file -- end-of-archive blocks, flush, close -- is one step acting on the open file wherever a rename has moved it; "
         "TarFile.__exit__ on an exception closes without the end-of-archive blocks)",
         "after an allowed failure the session is retried on the same path and must complete with the plain-dict content",
     ]
@@ -509,7 +511,7 @@ def main():
         chk.case("single.%s" % sc, case_session, scenario=sc, nfaults=1)
     chk.case("validate", case_validate)
     if tier == "thorough":
-        cuts = [0, 12, 24, 34, 44, 54, 64, BIG + 1]
+        cuts = [0, 10, 20, 30, 40, 50, 60, 70, 80, 90, 100, BIG + 1]
         for sc in ("new", "edit", "solve"):
             for lo, hi in zip(cuts[:-1], cuts[1:]):
                 chk.case("pairs.%s.k1_%d_%d" % (sc, lo, hi - 1), case_session, scenario=sc, nfaults=2, k1lo=lo, k1hi=hi - 1)
